@@ -27,6 +27,7 @@ const modPath = "github.com/refraction-networking/uquic"
 
 // Prog is the loaded program.
 type Prog struct {
+	callSiteCache map[*types.Func][]CallSite
 	RepoDir string
 	Fset    *token.FileSet
 	Pkgs    map[string]*packages.Package // by import path, all (deps included)
